@@ -667,8 +667,119 @@ def rule_pipeline_order(model):
     return r
 
 
+def _pure_piece(e, param):
+    """Is e a constant or an untransformed piece of the match object
+    `param` (a group or a slice of a group)?"""
+    if isinstance(e, ast.Constant):
+        return True
+    if isinstance(e, ast.Call) and isinstance(e.func, ast.Attribute) and \
+            e.func.attr == 'group' and isinstance(e.func.value, ast.Name) \
+            and e.func.value.id == param:
+        return True
+    if isinstance(e, ast.Subscript):
+        return _pure_piece(e.value, param)
+    if isinstance(e, ast.BoolOp):
+        return all(_pure_piece(v, param) for v in e.values)
+    if isinstance(e, ast.IfExp):
+        return _pure_piece(e.body, param) and _pure_piece(e.orelse, param)
+    return False
+
+
+def rule_format_verbatim(model):
+    r = RuleResult('C15.R9', 'the C-style format a %(name)fmt tag is '
+                   'written with reaches the var tag as written: the '
+                   'scanner hook varExtra hands on a constant or an '
+                   'untransformed group of the match (%X, %E, %G are not '
+                   '%x, %e, %g)')
+    n = 0
+    S = model.cls('DT_String', 'String')
+    for ci in [S] + list(model.subclasses(S)):
+        fi = ci.methods.get('varExtra')
+        if fi is None:
+            continue
+        ps = fi.params()
+        if len(ps) < 2:
+            raise AnalysisError(f'{fi.where}: signature changed')
+        for x in own_nodes(fi.node):
+            if not isinstance(x, ast.Return):
+                continue
+            n += 1
+            v = x.value
+            exprs = [v]
+            if isinstance(v, ast.Name):
+                exprs = [d for d in model.local_defs(fi, v.id)]
+            ok = v is not None and all(
+                isinstance(e, ast.AST) and _pure_piece(e, ps[1])
+                for e in exprs)
+            r.instance(fi.where, x, 'verbatim' if ok else 'TRANSFORMED')
+            if not ok:
+                r.finding(fi.where, x, 'the format text of the tag is '
+                          'transformed between the scanner and the var '
+                          'tag: the conversion applied is not the one '
+                          'written', node=x, ctx=fi)
+    if n < 2:
+        raise AnalysisError(f'C15.R9: only {n} varExtra returns found')
+    return r
+
+
+def rule_fmt_dispatch(model):
+    r = RuleResult('C15.R10', 'fmt=NAME resolves to a method of the value '
+                   'first, then to a named special format, then to a '
+                   '%-format: in every dispatch chain the method test '
+                   'precedes the special-format test')
+    fi = model.func('DT_Var', 'Var.render')
+    n = 0
+    for x in own_nodes(fi.node):
+        if not isinstance(x, ast.If):
+            continue
+        from ..model import parent as _parent
+        par = _parent(x)
+        if isinstance(par, ast.If) and par.orelse == [x]:
+            continue          # not the head of its chain
+        tests = []
+        cur = x
+        while True:
+            tests.append(cur.test)
+            if len(cur.orelse) == 1 and isinstance(cur.orelse[0], ast.If):
+                cur = cur.orelse[0]
+            else:
+                break
+        kinds = []
+        for t in tests:
+            k = None
+            for y in ast.walk(t):
+                if isinstance(y, ast.Compare) and len(y.ops) == 1 and \
+                        isinstance(y.ops[0], ast.In) and \
+                        norm(y.comparators[0]) == 'special_formats':
+                    k = 'special'
+                if isinstance(y, ast.Call) and isinstance(
+                        y.func, ast.Name) and y.func.id == 'hasattr' and \
+                        len(y.args) == 2 and not isinstance(
+                            y.args[1], ast.Constant):
+                    k = k or 'method'
+            kinds.append(k)
+        if 'special' not in kinds:
+            continue
+        n += 1
+        i = kinds.index('special')
+        ok = 'method' in kinds[:i]
+        r.instance(fi.where, f'if-chain at {norm(tests[0])}',
+                   ' < '.join(k for k in kinds if k) if ok
+                   else 'SPECIAL FORMAT TESTED FIRST')
+        if not ok:
+            r.finding(fi.where, f'chain: {" / ".join(k or "-" for k in kinds)}',
+                      'a named special format is tried before a method of '
+                      'the value (or the method test is gone): a value '
+                      'whose own method has the name of a registered format '
+                      'is formatted by the built-in instead', node=x, ctx=fi)
+    if n < 2:
+        raise AnalysisError(f'C15.R10: only {n} fmt dispatch chains found')
+    return r
+
+
 RULES = [rule_table, rule_stages, rule_agreements, rule_membership,
-         rule_pipeline_order, rule_missing]
+         rule_pipeline_order, rule_missing, rule_format_verbatim,
+         rule_fmt_dispatch]
 EXPLANATION = (
     'Table queries on the modifier table and the option grammar of '
     'dtml-var, iteration-source query, statement-order check of the stage '
